@@ -79,8 +79,12 @@ fn check_e1(check: &mut Check, flavours: Vec<adapt::Flavour>) {
 }
 
 fn check_e2(check: &mut Check, flavours: Vec<adapt::Flavour>) {
+  check_e2_scaled(check, flavours, 1)
+}
+
+fn check_e2_scaled(check: &mut Check, flavours: Vec<adapt::Flavour>, scale: u64) {
   let ctx = check.ctx.clone();
-  let cases = std::env::var("VERIF_CASES2").ok().and_then(|s| s.parse().ok()).unwrap_or(ctx.tier.pick(30_000u64, 1_500_000u64));
+  let cases = std::env::var("VERIF_CASES2").ok().and_then(|s| s.parse().ok()).unwrap_or(ctx.tier.pick(30_000u64, 1_500_000u64) / scale);
   let max_ops = ctx.tier.pick(50usize, 90usize);
   let lw = if ctx.property == "C04" || ctx.property == "C09" { 2 } else { 1 };
   let flavours: Vec<adapt::Flavour> = match std::env::var("VERIF_FLAVOUR") {
@@ -175,7 +179,7 @@ fn main() {
         }
         "C07" => {
           check_bcast(&mut check, 1);
-          check_e2(&mut check, vec![adapt::Flavour::Broadcast]);
+          check_e2_scaled(&mut check, vec![adapt::Flavour::Broadcast], 3);
           ("proptest-generated histories of one sender and up to 4 receivers (clone/close/drop/convert, single and batch forms) against a send-log + per-receiver-cursor model; non-trivial = at least one full lap of the ring and two live receivers with different cursors; distinct = hash of the scenario".into(), vec!["sequential histories (no overlapping operations)".into()])
         }
         "C06" => {
